@@ -24,6 +24,8 @@ def run(rep):
     rep.guard(c06.s12, rep, w, 'C07')   # a class declared in a block is a captured local of its methods: leaving the block has to close it, not the variable next to it
     import c04
     rep.guard(c04.b12, rep, w)    # methods are constants of the class body's chunk: two different functions sharing one constant slot make one class answer with the other's method
+    import c01
+    rep.guard(c01.r2, rep, w)     # a method cache keyed by the address of a class must keep the class alive (or be emptied when it dies): no unrooted class handle outside the heap
     import c06
     rep.guard(c06.s10, rep, w, 'C07')   # nothing a program declares can take the place of the hidden `super` / `self`
     import c18
@@ -383,6 +385,20 @@ def k4(rep, w):
     if ev is None:
         raise Broken('C07', 'anchor', 'super_: the kind predicate has a shape the rule cannot evaluate')
     want_true = [v for v in variants if v in ('Initialiser', 'Method', 'StaticMethod')]
+    # the kinds of functions that are *not* methods, by where they are made: every FunctionKind built outside the method / class compiler and
+    # the top-level entry (function declarations, lambdas - and whatever kind is added for them later) has to be skipped by the search
+    plain = set()
+    for g in w.yarel.fns.values():
+        if not g.file.endswith('compiler.rs') or g.name in ('method', 'class_declaration', 'compile', 'new', 'parse') or g.kind == 'Closure':
+            continue
+        for b in g.blocks:
+            for s_ in b['s']:
+                rr = s_.get('r', {})
+                if rr.get('rv') == 'agg' and rr.get('adt') == FK and rr.get('v') not in want_true and rr.get('v') != 'Script':
+                    plain.add(rr['v'])
+    leaking = sorted(v for v in plain if ev.get(v))
+    r.check(not leaking, 'the predicate skips every kind of plain function (%s)' % sorted(plain),
+            'the enclosing-method search stops at a function of kind %s, which is not a method: `super` inside it takes that function\'s own slot zero - the closure - as the receiver' % leaking, sp.loc())
     r.check(all(ev.get(v) for v in want_true) and ev.get('Function') is False, 'the predicate accepts %s and skips plain functions' % want_true,
             'the enclosing-method search accepts %s: a method kind it skips (e.g. static methods) makes `super` inside such a method use the receiver of some outer method instead' %
             sorted(v for v in variants if ev.get(v)), sp.loc())
